@@ -291,8 +291,8 @@ func run(pl *plan, bin string, scale float64) int {
 		}
 		m.evals++
 	}
-	// 1b. previously shrunk failures kept under replays/<ID>/keep-*.json are regression inputs
-	keeps, _ := filepath.Glob(filepath.Join(verifDir, "replays", pl.ID, "keep-*.json"))
+	// 1b. previously shrunk failures kept under replays/keep/<ID>-*.json are regression inputs
+	keeps, _ := filepath.Glob(filepath.Join(verifDir, "replays", "keep", pl.ID+"-*.json"))
 	for _, k := range keeps {
 		res, sig, _ := replayCase(pl, bin, k)
 		if res == "violation" && !isOpen(kf, pl.ID, sig) {
@@ -519,6 +519,12 @@ func runStage(pl *plan, bin string, st stage, runDir string, m *merged, scale fl
 			if _, e := os.Stat(r.failFile); e == nil {
 				dst := filepath.Join(verifDir, "replays", pl.ID, fmt.Sprintf("%s-%s-seed%d-shard%d.json", tier, st.Name, seed, r.idx))
 				copyFile(r.failFile, dst)
+				if b, e := os.ReadFile(r.failFile); e == nil && len(m.samples) < 12 {
+					var rf h.ReplayFile
+					if json.Unmarshal(b, &rf) == nil {
+						m.samples = append(m.samples, rf.Case)
+					}
+				}
 				if code != 1 {
 					fmt.Printf("VIOLATION property=%s replay=%s\n", pl.ID, dst)
 					fmt.Println(indent(tailLines(r.out, 40)))
